@@ -11,9 +11,16 @@ mod util;
 
 use std::io::Write;
 
+static LAST_PANIC: std::sync::Mutex<String> = std::sync::Mutex::new(String::new());
+
 fn main() {
   // panics of the code under test are caught per call; keep stderr quiet
-  std::panic::set_hook(Box::new(|_| {}));
+  // ... but remember the last message: a panic in a call that no generator guards is reported as a failing case
+  std::panic::set_hook(Box::new(|info| {
+    if let Ok(mut g) = LAST_PANIC.lock() {
+      *g = format!("{}", info).replace('\n', " ");
+    }
+  }));
   let args: Vec<String> = std::env::args().collect();
   if args.len() < 2 {
     eprintln!("usage: verif-harness gen <property> <quick|thorough> <seed> [only-index]");
@@ -26,6 +33,12 @@ fn main() {
       let seed: u64 = args[4].parse().expect("seed");
       let only: Option<u64> = args.get(5).map(|s| s.parse().expect("index"));
       let mut out = util::Out::new();
+      let known = ["C01", "C02", "C03", "C04", "C05", "C06", "C07", "C08", "C09", "C10", "C11", "C12", "C13", "C14", "C15", "C16", "C17", "C18"];
+      if !known.contains(&prop) {
+        eprintln!("unknown property {}", prop);
+        std::process::exit(2);
+      }
+      let run = std::panic::catch_unwind(std::panic::AssertUnwindSafe(|| {
       match prop {
         "C16" => g_adss::gen(seed, thorough, only, &mut out),
         "C06" => g_sharks::gen(seed, thorough, only, &mut out),
@@ -66,10 +79,16 @@ fn main() {
           // encodings not below the modulus are also refused where a secret is cut into elements
           g_sharks::gen_bad_chunks(&mut out);
         }
-        _ => {
-          eprintln!("unknown property {}", prop);
-          std::process::exit(2);
-        }
+        _ => {}
+      }
+      }));
+      if run.is_err() {
+        let msg = LAST_PANIC.lock().map(|g| g.clone()).unwrap_or_default();
+        out.case(
+          "harness.panic".to_string(),
+          "panic".to_string(),
+          Err(format!("a library call made while preparing the cases for {} panicked: {}", prop, msg.chars().take(300).collect::<String>())),
+        );
       }
       let stdout = std::io::stdout();
       let mut w = std::io::BufWriter::new(stdout.lock());
